@@ -832,48 +832,16 @@ func runC18(p *Program, r *Report) {
 		}
 		s := s
 		p.forAllPaths(r, "C18.deadline", fn, "timer callback", Opts{}, "deadline timer: tryLock("+s.mu+") failed ↦ an operation is active: cancel its context and nothing else; succeeded ↦ the connection is idle: atomic store expired=1 under the lock, release, no cancel", func(pa *Path) (bool, string) {
-			tl := pa.Calls("mu.tryLock")
-			if len(tl) != 1 || argKey(tl[0], 0) != s.mu {
-				return false, "tryLock on " + func() string {
-					if len(tl) > 0 {
-						return argKey(tl[0], 0)
-					}
-					return "-"
-				}()
-			}
-			got, known := pa.Decided(tl[0].Res.Key())
-			if !known {
-				return false, "tryLock result not tested"
-			}
-			cancels, stores, unlocks := 0, 0, 0
-			for _, e := range pa.Events {
-				if e.Kind == "call" && strings.HasPrefix(e.Callee, "dyn ") && strings.Contains(e.Callee, s.cancel) {
-					cancels++
-				}
-				if isCall(e, "atomic.StoreInt64") && argKey(e, 0) == s.flag && argKey(e, 1) == "1" {
-					stores++
-				}
-				if isCall(e, "mu.unlock") && argKey(e, 0) == s.mu {
-					unlocks++
-				}
-			}
-			if got {
-				if cancels != 0 || stores != 1 || unlocks != 1 {
-					return false, fmt.Sprintf("idle: cancels=%d stores=%d unlocks=%d", cancels, stores, unlocks)
-				}
-			} else if cancels != 1 || stores != 0 || unlocks != 0 {
-				return false, fmt.Sprintf("active: cancels=%d stores=%d unlocks=%d", cancels, stores, unlocks)
-			}
-			return true, ""
+			return expireDecision(pa, s.mu, s.cancel, s.flag)
 		})
 	}
-	for _, s := range []struct{ fn, flag, timer string }{{"netConn.SetWriteDeadline", "&netConn.writeExpired", "netConn.writeTimer"}, {"netConn.SetReadDeadline", "&netConn.readExpired", "netConn.readTimer"}} {
+	for _, s := range []struct{ fn, flag, timer, mu, cancel string }{{"netConn.SetWriteDeadline", "&netConn.writeExpired", "netConn.writeTimer", "netConn.writeMu", "netConn.writeCancel"}, {"netConn.SetReadDeadline", "&netConn.readExpired", "netConn.readTimer", "netConn.readMu", "netConn.readCancel"}} {
 		fn := p.Func(s.fn)
 		if fn == nil {
 			continue
 		}
 		s := s
-		p.forAllPaths(r, "C18.deadline", fn, "set deadline", Opts{}, s.fn+" clears the expired flag, then stops the timer for the zero time, else resets it to max(time.Until(t), 1)", func(pa *Path) (bool, string) {
+		p.forAllPaths(r, "C18.deadline", fn, "set deadline", Opts{}, s.fn+" clears the expired flag, then stops the timer for the zero time; for a time that has already passed it stops the timer and expires at once (tryLock failed ↦ cancel the active call; succeeded ↦ store expired=1, release) instead of racing a timer against the caller's next call; otherwise it resets the timer to time.Until(t)", func(pa *Path) (bool, string) {
 			si := eventIndex(pa, 0, func(e *Event) bool { return isCall(e, "atomic.StoreInt64") && argKey(e, 0) == s.flag && argKey(e, 1) == "0" })
 			if si < 0 {
 				return false, "expired flag not cleared"
@@ -896,20 +864,40 @@ func runC18(p *Program, r *Report) {
 				}
 				return true, ""
 			}
-			if len(rs) != 1 || argKey(rs[0], 0) != s.timer || len(st) != 0 {
-				return false, "non-zero time does not reset the timer"
-			}
-			d := argKey(rs[0], 1)
 			neg, known := decidedLike(pa, "call:time.Until@@ <= 0")
 			if !known {
 				neg2, k2 := decidedLike(pa, "call:time.Until@@ > 0")
 				neg, known = !neg2, k2
 			}
 			if !known {
-				return false, "duration not clamped"
+				return false, "a deadline that has already passed is not told from a future one"
 			}
-			if neg && d != "1" || !neg && !keyIs(rs[0].Args[1], "call:time.Until@@") {
-				return false, "timer reset to " + d
+			if neg {
+				// F20: a timer armed for a passed deadline fires after the caller's next call has taken the lock and kills the connection.
+				if len(rs) != 0 {
+					return false, "a deadline that has already passed is armed as a timer (" + argKey(rs[0], 1) + "): the callback races the caller's next call, finds it active and closes the connection"
+				}
+				if len(st) != 1 || argKey(st[0], 0) != s.timer {
+					return false, "a deadline that has already passed does not stop the pending timer"
+				}
+				if ok, why := expireDecision(pa, s.mu, s.cancel, s.flag); !ok {
+					return false, "passed deadline: " + why
+				}
+				sti := eventIndex(pa, 0, func(e *Event) bool { return isCall(e, "(*time.Timer).Stop") })
+				xi := eventIndex(pa, 0, func(e *Event) bool { return isCall(e, "atomic.StoreInt64") && argKey(e, 0) == s.flag && argKey(e, 1) == "1" })
+				if xi >= 0 && (xi < si || xi < sti) {
+					return false, "expired flag set before it was cleared / before the old timer was stopped"
+				}
+				return true, ""
+			}
+			if len(rs) != 1 || argKey(rs[0], 0) != s.timer || len(st) != 0 {
+				return false, "future time does not reset the timer"
+			}
+			if !keyIs(rs[0].Args[1], "call:time.Until@@") {
+				return false, "timer reset to " + argKey(rs[0], 1)
+			}
+			if n := len(pa.Calls("mu.tryLock")); n != 0 {
+				return false, "future deadline expires at once"
 			}
 			// flag cleared before the timer is re-armed
 			ri := eventIndex(pa, 0, func(e *Event) bool { return isCall(e, "(*time.Timer).Reset") })
@@ -937,6 +925,44 @@ func runC18(p *Program, r *Report) {
 		})
 	}
 	c05guard(p, r, getLockEnv(p), "C18.guard", map[string]bool{"netConn.reader": true, "netConn.readEOFed": true})
+}
+
+// expireDecision is the decision a passed deadline takes (timer callback, or Set*Deadline with a time in the past):
+// tryLock(mu) failed ↦ a call is active: cancel its context and nothing else; succeeded ↦ idle: store expired=1 under the lock, release, no cancel.
+func expireDecision(pa *Path, mu, cancel, flag string) (bool, string) {
+	tl := pa.Calls("mu.tryLock")
+	if len(tl) != 1 || argKey(tl[0], 0) != mu {
+		return false, "tryLock on " + func() string {
+			if len(tl) > 0 {
+				return argKey(tl[0], 0)
+			}
+			return "-"
+		}()
+	}
+	got, known := pa.Decided(tl[0].Res.Key())
+	if !known {
+		return false, "tryLock result not tested"
+	}
+	cancels, stores, unlocks := 0, 0, 0
+	for _, e := range pa.Events {
+		if e.Kind == "call" && strings.HasPrefix(e.Callee, "dyn ") && strings.Contains(e.Callee, cancel) {
+			cancels++
+		}
+		if isCall(e, "atomic.StoreInt64") && argKey(e, 0) == flag && argKey(e, 1) == "1" {
+			stores++
+		}
+		if isCall(e, "mu.unlock") && argKey(e, 0) == mu {
+			unlocks++
+		}
+	}
+	if got {
+		if cancels != 0 || stores != 1 || unlocks != 1 {
+			return false, fmt.Sprintf("idle: cancels=%d stores=%d unlocks=%d", cancels, stores, unlocks)
+		}
+	} else if cancels != 1 || stores != 0 || unlocks != 0 {
+		return false, fmt.Sprintf("active: cancels=%d stores=%d unlocks=%d", cancels, stores, unlocks)
+	}
+	return true, ""
 }
 
 // ---- C19 -----------------------------------------------------------------------------------------------------------------------------
